@@ -368,6 +368,7 @@ def _commutes_rules(ctx, repo):
     _phase_by_rules(ctx, repo)
     _phased_xz_canonical(ctx, repo)
     period_soundness_rule(ctx, 'C08.o')
+    _predicates_compare_values(ctx, repo)
     shared.qudit_blind_dispatch_rule(ctx, 'C08.p', ['cirq-core/cirq/ops/', 'cirq-core/cirq/protocols/', 'cirq-google/', 'cirq-aqt/', 'cirq-ionq/', 'cirq-pasqal/'], floor=6)
     ctx.decided.append('C08.p code that recognises X/Z power gates by class looks at their dimension or is tabled as unreachable for qudits')
     ctx.decided.append('C08.o exponent periods used for canonicalisation are multiples of every eigenphase period (PhasedXPowGate._period and the EigenGate helper, interpreted on a rational grid of shifts)')
@@ -810,3 +811,34 @@ def period_soundness_rule(ctx, rid='C08.o'):
             ctx.ob(rid, f'cirq.ops.eigen_gate._approximate_common_period:shifts={es}:s={s}', ok, '' if ok else
                    f'eigen shifts {es} with global_shift={s}: the common period of {[round(x, 4) for x in periods]} is reported as {p}, which is not a multiple of each',
                    em.rel, hf.lineno, construct='cirq.ops.eigen_gate._approximate_common_period')
+
+
+def _predicates_compare_values(ctx, repo):
+    """C08.q - a predicate's answer is never a bare identity test of two values."""
+    ctx.decided.append('C08.q predicate methods (_commutes_, __eq__, _approx_eq_, _equal_up_to_global_phase_, _value_equality_*) never return a bare `a is b` / `a is not b` of two '
+                       'non-singleton values: equal values that are different objects (a power X**1, a copy, an unpickled constant) must get the same answer')
+    ctx.rule('C08.q', 'values, not objects: in the predicate methods of cirq.ops / cirq.value / cirq.circuits / cirq.devices no return statement returns an identity comparison whose '
+             'operands are both ordinary values (not None / NotImplemented / a sentinel or class constant); `if self is other: return True` as a fast path before a value comparison is fine',
+             floor=40, style='RG')
+    PRED = {'_commutes_', '__eq__', '__ne__', '_approx_eq_', '_equal_up_to_global_phase_', '_commutes_on_qids_'}
+    SING = {'None', 'True', 'False', 'NotImplemented', 'Ellipsis'}
+    n = 0
+    for ci in sorted(repo.classes.values(), key=lambda c: c.qual):
+        if '.testing.' in ci.qual or '.contrib.' in ci.qual or not ci.qual.startswith(('cirq.ops.', 'cirq.value.', 'cirq.circuits.', 'cirq.devices.', 'cirq.study.', 'cirq_google.ops.',
+                                                                                      'cirq_google.devices.', 'cirq_ionq.', 'cirq_pasqal.', 'cirq_aqt.')):
+            continue
+        for mn in sorted(PRED & set(ci.methods)):
+            fn = ci.methods[mn]
+            n += 1
+            bad = None
+            for r in ast.walk(fn):
+                if isinstance(r, ast.Return) and isinstance(r.value, ast.Compare) and len(r.value.ops) == 1 and isinstance(r.value.ops[0], (ast.Is, ast.IsNot)):
+                    a, b = ast.unparse(r.value.left), ast.unparse(r.value.comparators[0])
+                    if a in SING or b in SING or a.split('.')[-1].isupper() or b.split('.')[-1].isupper():
+                        continue
+                    bad = r
+            ctx.ob('C08.q', f'{ci.qual}.{mn}:value-comparison', bad is None, '' if bad is None else
+                   f'`{ast.unparse(bad)}`: the answer depends on object identity - an equal value that is another object (X**1, a copy, an unpickled gate) gets the opposite answer',
+                   ci.mod.rel, bad.lineno if bad is not None else fn.lineno)
+    if n == 0:
+        raise AnalysisError('C08.q: no predicate methods found')
